@@ -15,6 +15,16 @@ namespace Teakra {
 class ICU {
 public:
     using IrqBits = std::bitset<16>;
+    void Reset() {
+        std::lock_guard lock(mutex);
+        request.reset();
+        for (auto& e : enabled)
+            e.reset();
+        vectored_enabled.reset();
+        vector_low.fill(0);
+        vector_high.fill(0);
+        vector_context_switch.fill(0);
+    }
     u16 GetRequest() const {
         std::lock_guard lock(mutex);
         return (u16)request.to_ulong();
@@ -79,8 +89,8 @@ public:
         on_vectored_interrupt = std::move(vectored_interrupt);
     }
 
-    std::array<u16, 16> vector_low, vector_high;
-    std::array<u16, 16> vector_context_switch;
+    std::array<u16, 16> vector_low{}, vector_high{};
+    std::array<u16, 16> vector_context_switch{};
 
 private:
     std::function<void(u32)> on_interrupt;
